@@ -361,8 +361,18 @@ class Builder(object):
         return {'first': first, 'arcs': spelled}, oid
 
     def shadowed(self, mod, o):
-        """o (a pool entry of another module) is hidden by a local declaration of the same name."""
-        return o['module'] != mod['name'] and any(n['module'] == mod['name'] and n['name'] == o['name'] for n in self.nodes)
+        """o (a pool entry of another module) is hidden: by a local declaration of the same name, or by a same-named
+        symbol of an earlier module (within one module a name resolves to exactly one defining module)."""
+        if o['module'] == mod['name']:
+            return False
+        owner = None
+        for n in self.nodes:
+            if n['name'] == o['name'] and not n.get('fixture'):
+                if n['module'] == mod['name']:
+                    return True
+                if owner is None:
+                    owner = n['module']
+        return owner is not None and owner != o['module']
 
     def reg_node(self, mod, name, oid):
         self.nodes.append({'module': mod['name'], 'name': name, 'oid': tuple(oid)})
@@ -1114,6 +1124,18 @@ def module_sets(draw, prof=None):
                                   'num': list(cnum)})
                     parent_name, parent_num = cname, cnum
                 groups.append(chain)
+            # a scalar named like a table column (or scalar) of an earlier module
+            fobjs = [o for o in b.objects if o['module'] != mname and o['role'] in ('column', 'scalar')
+                     and not any(n['module'] == mname and n['name'] == o['name'] for n in b.nodes)]
+            if fobjs and 'scalar' in kinds and draw(st.booleans()):
+                o = draw(st.sampled_from(fobjs))
+                saved = b.names.lower
+                b.names.lower = lambda: o['name']
+                try:
+                    d_ = _gen_scalar(b, mod)
+                finally:
+                    b.names.lower = saved
+                groups.append(d_)
         if dialect == 'v2' and 'mi' in (prof['kinds'] or ('mi',)) and draw(st.integers(0, 3)):
             groups.append(_gen_mi(b, mod))
             has_mi = True
